@@ -19,13 +19,23 @@
        "no"      stores anyway (pinned tree: pre-reorg duties are stored after the invalidation)
        "yes"     drops the store (pending_fixes/C20-straddling-fetch.diff; what the design check uses)
        "either"  both allowed (trace validation: the property decides, not the mechanism)
-   ShareRefs  TRUE: cache and answers share slices/maps (pinned tree); FALSE: answers are private copies. *)
+   ShareRefs  TRUE: cache and answers share slices/maps (pinned tree); FALSE: answers are private copies.
+
+   Beacon-node failure: the environment decides per beacon call whether the node answers (Fetch) or fails
+   (FetchFail); Deliver hands either outcome to the cache code.  OnFetchError says what the cache does with a failed
+   call:
+       "error"    the request fails with the error; nothing is stored (cache.go: `return ...WithMeta{}, err`)
+       "partial"  control: when the lookup hit duties of the epoch, they are returned WITHOUT error (an answer that
+                  silently lacks the missing indices) - must violate NoPartialOnError
+       "either"   both allowed (trace validation: the answer decides, not the mechanism)
+   A request whose indices were all requested before never calls the beacon node, so a failing node does not
+   matter to it (Lookup goes straight to "ret"). *)
 EXTENDS Integers, Sequences, FiniteSets, TLC
 CONSTANTS Kinds,            \* sequence of kinds in the order InvalidateCache / Trim visit them
           SliceKinds,       \* kinds whose duties carry a slice ({"sync"}: ValidatorSyncCommitteeIndices)
           Epochs, Vals, Reqs,
           TrimThreshold,    \* dutiesCacheTrimThreshold = 3
-          GuardGeneration, ShareRefs
+          GuardGeneration, ShareRefs, OnFetchError
 
 VARIABLES asg,        \* beacon truth table: set of [k, e, x, v, n]  (constant during a behaviour)
           tv,         \* tv[e]: current truth version of epoch e
@@ -51,9 +61,9 @@ Strip(D) == {[x |-> d.x, j |-> d.j, v |-> d.v] : d \in D}
 NoMeta == [v |-> -1, f |-> 0]
 ZeroE == [e \in Epochs |-> 0]
 NoMt == [type |-> "none", arg |-> 0, i |-> 0, snap |-> ZeroE]
-NoAns == [r |-> 0]
+NoAns == [r |-> 0, err |-> FALSE, part |-> FALSE]
 Idle == [st |-> "idle", k |-> "none", e |-> -1, S |-> {}, gen |-> -1, full |-> FALSE, hit |-> {}, hmeta |-> NoMeta,
-         missing |-> {}, got |-> {}, gmeta |-> NoMeta, fl |-> 0]
+         missing |-> {}, got |-> {}, gmeta |-> NoMeta, fl |-> 0, ep |-> FALSE, part |-> FALSE]
 
 InitCache ==
   /\ tv = [e \in Epochs |-> 0]
@@ -87,7 +97,8 @@ Lookup(r) ==
                 hit == {d \in cached[k][e] : d.x \in S} IN
             IF missing = {}
               THEN rq' = [rq EXCEPT ![r].st = "ret", ![r].full = TRUE, ![r].hit = hit, ![r].hmeta = meta[k][e]]
-              ELSE rq' = [rq EXCEPT ![r].st = "fetch", ![r].hit = hit, ![r].missing = missing]
+              ELSE rq' = [rq EXCEPT ![r].st = "fetch", ![r].hit = hit, ![r].hmeta = meta[k][e], ![r].missing = missing,
+                                    ![r].ep = TRUE]
        ELSE rq' = [rq EXCEPT ![r].st = "fetch", ![r].missing = S]
   /\ UNCHANGED <<asg, tv, cvars, gen, mt, floor, nfetch, dirty, outs, last>>
 
@@ -102,10 +113,22 @@ Fetch(r) ==
      /\ nfetch' = fid
   /\ UNCHANGED <<asg, tv, cvars, gen, mt, floor, dirty, outs, last>>
 
-\* the response reaches the cache code
+\* the beacon node fails this call (timeout, 5xx, ...): no answer
+FetchFail(r) ==
+  /\ rq[r].st = "fetch"
+  /\ rq' = [rq EXCEPT ![r].st = "goterr"]
+  /\ UNCHANGED <<asg, tv, cvars, gen, mt, floor, nfetch, dirty, outs, last>>
+
+\* the response (or the error) reaches the cache code; on an error the request fails -- or, in the control variant,
+\* is answered with the duties the lookup found for the epoch
 Deliver(r) ==
-  /\ rq[r].st = "got"
-  /\ rq' = [rq EXCEPT ![r].st = "store"]
+  /\ \/ /\ rq[r].st = "got"
+        /\ rq' = [rq EXCEPT ![r].st = "store"]
+     \/ /\ rq[r].st = "goterr"
+        /\ \/ /\ OnFetchError = "partial" => ~(rq[r].ep /\ rq[r].hit # {})
+              /\ rq' = [rq EXCEPT ![r].st = "reterr"]
+           \/ /\ OnFetchError # "error" /\ rq[r].ep /\ (OnFetchError = "partial" => rq[r].hit # {})
+              /\ rq' = [rq EXCEPT ![r].st = "ret", ![r].part = TRUE]
   /\ UNCHANGED <<asg, tv, cvars, gen, mt, floor, nfetch, dirty, outs, last>>
 
 \* storeOrAmend*Duties under Lock: first store of the epoch, or amend with the NEWLY requested indices only
@@ -132,14 +155,22 @@ Objs(k, D, m) == {<<d.f, d.x>> : d \in {c \in D : k \in SliceKinds}} \cup {<<m.f
 Return(r) ==
   /\ rq[r].st = "ret"
   /\ LET k == rq[r].k  e == rq[r].e
-         D == IF rq[r].full THEN rq[r].hit ELSE rq[r].hit \cup rq[r].got
-         m == IF rq[r].full THEN rq[r].hmeta ELSE rq[r].gmeta
+         fromCache == rq[r].full \/ rq[r].part
+         D == IF fromCache THEN rq[r].hit ELSE rq[r].hit \cup rq[r].got
+         m == IF fromCache THEN rq[r].hmeta ELSE rq[r].gmeta
          o == Objs(k, D, m) IN
      /\ last' = [r |-> r, k |-> k, e |-> e, S |-> rq[r].S, duties |-> Strip(D), mv |-> m.v, fl |-> rq[r].fl,
-                 tvr |-> tv[e], corrupt |-> ShareRefs /\ o \cap dirty # {}]
+                 tvr |-> tv[e], corrupt |-> ShareRefs /\ o \cap dirty # {}, err |-> FALSE, part |-> rq[r].part]
      /\ outs' = IF ShareRefs THEN outs \cup {o} ELSE outs
   /\ rq' = [rq EXCEPT ![r] = Idle]
   /\ UNCHANGED <<asg, tv, cvars, gen, mt, floor, nfetch, dirty>>
+\* the request fails with the beacon node's error: no answer, nothing stored
+ReturnErr(r) ==
+  /\ rq[r].st = "reterr"
+  /\ last' = [r |-> r, k |-> rq[r].k, e |-> rq[r].e, S |-> rq[r].S, duties |-> {}, mv |-> -1, fl |-> rq[r].fl,
+              tvr |-> tv[rq[r].e], corrupt |-> FALSE, err |-> TRUE, part |-> FALSE]
+  /\ rq' = [rq EXCEPT ![r] = Idle]
+  /\ UNCHANGED <<asg, tv, cvars, gen, mt, floor, nfetch, dirty, outs>>
 
 ---------------------------------------------------------------------------------------------------
 (* Environment. *)
@@ -194,25 +225,30 @@ TrimRet ==
   /\ UNCHANGED <<asg, tv, cvars, gen, rq, floor, nfetch, dirty, outs, last>>
 
 \* steps the implementation takes on its own
-Internal == \/ \E r \in Reqs : ReadGen(r) \/ Lookup(r) \/ StoreOrAmend(r) \/ Return(r)
+Internal == \/ \E r \in Reqs : ReadGen(r) \/ Lookup(r) \/ StoreOrAmend(r) \/ Return(r) \/ ReturnErr(r)
             \/ InvBump \/ InvTrim \/ InvRet \/ TrimStep \/ TrimRet
 
 ---------------------------------------------------------------------------------------------------
 (* Properties (C20). *)
 \* every index asked for is answered completely with the beacon's duties of ONE version that existed by the time
 \* of the return; nothing else is in the answer; order is not part of the property
+\* (a request that failed with an error served nothing: the three answer properties do not apply to it)
+Answered == last.r # 0 /\ ~last.err
 AnswerEqualsBN ==
-  last.r # 0 =>
+  Answered =>
     /\ \A x \in last.S : \E v \in 0..last.tvr : {d \in last.duties : d.x = x} = BN(last.k, last.e, {x}, v)
     /\ \A d \in last.duties : d.x \in last.S
     /\ last.mv \in 0..last.tvr
 \* a request that started after InvalidateCache(e0) returned sees nothing older than what the beacon node held
 \* when that invalidation was called (epochs > e0)
 FreshAfterInvalidate ==
-  last.r # 0 => /\ \A d \in last.duties : d.v >= last.fl
-                  /\ last.mv >= last.fl
+  Answered => /\ \A d \in last.duties : d.v >= last.fl
+              /\ last.mv >= last.fl
 \* what a caller did to an earlier answer is not visible in a later one
-PrivateCopies == last.r # 0 => ~last.corrupt
+PrivateCopies == Answered => ~last.corrupt
+\* a beacon-node failure is never papered over: an answer given WITHOUT error after the request's beacon call failed
+\* is still the beacon node's answer for the whole requested set (with OnFetchError = "error" there is no such answer)
+NoPartialOnError == (Answered /\ last.part) => AnswerEqualsBN
 \* the cache holds, per requested index, the complete beacon answer of one version; only requested indices
 CacheSound ==
   \A k \in KindSet, e \in Epochs :
@@ -230,8 +266,8 @@ NoDirtyCache ==
     /\ \A d \in cached[k][e] : k \in SliceKinds => <<d.f, d.x>> \notin dirty
     /\ has[k][e] => <<meta[k][e].f, 0>> \notin dirty
 TypeOK == /\ gen \in Nat /\ mt.i \in 0..(NK + 1)
-          /\ \A r \in Reqs : rq[r].st \in {"idle", "called", "lookup", "fetch", "got", "store", "ret"}
-Safety == AnswerEqualsBN /\ FreshAfterInvalidate /\ PrivateCopies /\ CacheSound /\ CacheFresh /\ NoDirtyCache /\ TypeOK
+          /\ \A r \in Reqs : rq[r].st \in {"idle", "called", "lookup", "fetch", "got", "goterr", "store", "ret", "reterr"}
+Safety == AnswerEqualsBN /\ NoPartialOnError /\ FreshAfterInvalidate /\ PrivateCopies /\ CacheSound /\ CacheFresh /\ NoDirtyCache /\ TypeOK
 \* a fetch asks the beacon node for nothing the cache already holds, and for everything it does not
 FetchExactlyMissing ==
   \A r \in Reqs : rq[r].st = "fetch" =>
@@ -245,4 +281,15 @@ DropsAffected ==
         => \A e \in Epochs : (e < mt.arg - TrimThreshold => ~has'[Kinds[mt.i]][e])
                           /\ (e >= mt.arg - TrimThreshold => has'[Kinds[mt.i]][e] = has[Kinds[mt.i]][e])
 DropsAffectedProp == [][DropsAffected]_vars
+\* a failed beacon call leaves no trace in the cache: from the moment the node failed the call until the request has
+\* returned, none of that request's steps writes the maps (so the missing indices stay missing and a retry asks the
+\* node for them again)
+FailStoresNothing ==
+  \A r \in Reqs : (rq[r].st \in {"goterr", "reterr"} /\ rq'[r] # rq[r]) => UNCHANGED cvars
+\* ... and it fails with an error exactly when the beacon call failed (OnFetchError = "error")
+ErrorIffFetchFailed ==
+  \A r \in Reqs :
+    /\ (rq[r].st = "goterr" /\ rq'[r] # rq[r]) => (rq'[r].st = "reterr")
+    /\ (rq'[r].st = "reterr") => (rq[r].st \in {"goterr", "reterr"})
+FailProp == [][FailStoresNothing /\ ErrorIffFetchFailed]_vars
 ====
